@@ -539,6 +539,27 @@ def restart_and_probe(rng, drv, profile, tid, n0):
                 m["mailbox"] = rng.choice(boxes + [ABSENT])
                 m["mood"] = rng.choice(["happy", "lonely", ABSENT])
             do(ev0("Cmd", c=c, m=m))
+    if rng.random() < 0.4:
+        # much later: everything has expired; two sides come back to the very same ids (a mailbox id that
+        # once belonged to a nameplate is now opened directly), talk and close
+        from .gen import quiesce
+        quiesce(drv, do)
+        a = rng.choice(apps)
+        for k, side in enumerate(sides[:2]):
+            c = slots[k % len(slots)]
+            do(ev0("Connect", c=c))
+            do(ev0("Cmd", c=c, m=msg0(type="bind", appid=a, side=side)))
+            for i in boxes[:2]:
+                if c in drv.protos and not drv.conn_flags()[c]["held"]:
+                    do(ev0("Cmd", c=c, m=msg0(type="open", mailbox=i)))
+            if c in drv.protos:
+                do(ev0("Cmd", c=c, m=msg0(type="add", phase="p9", body="b9")))
+        for k, side in enumerate(sides[:2]):
+            c = slots[k % len(slots)]
+            if c in drv.protos:
+                do(ev0("Cmd", c=c, m=msg0(type="close", mailbox=ABSENT, mood=rng.choice(["happy", ABSENT]))))
+            if c in drv.protos:
+                do(ev0("Drop", c=c))
     return obs
 
 
